@@ -743,6 +743,8 @@ func (c *Check) onceFields() {
 			ok := dominatedByOnce(f, fa)
 			if ok {
 				c.ok("C20-R1", key, p.relFile(fa.Pos()), "file."+F+" read in "+fnName(f), "a baseOnce.Do call dominates the read")
+			} else if onceAtCallers(p, f, 0) {
+				c.ok("C20-R1", key, p.relFile(fa.Pos()), "file."+F+" read in helper "+fnName(f), "every call of this helper is dominated by a baseOnce.Do call")
 			} else if fnName(f) == "(*binutils.fileAddr2Line).init" {
 				c.ok("C20-R1", key, p.relFile(fa.Pos()), "file."+F+" read in "+fnName(f), "init runs under once.Do in SourceLine, after baseOnce.Do in the same call")
 			} else {
@@ -1246,4 +1248,26 @@ func (c *Check) nestedLocks() {
 		c.undecided("C20-R1", "nest:count", "", fmt.Sprintf("only %d functions take a lock; expected at least the config, temp-file, settings, binutils and pipe guards", n))
 	}
 	_ = types.Typ
+}
+
+// onceAtCallers: f is a helper (never used as a value) every call of which is dominated by a
+// sync.Once.Do (or a helper that runs one) in its caller, or in the caller's callers.
+func onceAtCallers(p *Program, f *ssa.Function, depth int) bool {
+	if depth > 2 {
+		return false
+	}
+	calls, asValue := directCallSites(p, f)
+	if asValue || len(calls) == 0 {
+		return false
+	}
+	for _, call := range calls {
+		g := call.Parent()
+		if dominatedByOnce(g, call.(ssa.Instruction)) {
+			continue
+		}
+		if !onceAtCallers(p, g, depth+1) {
+			return false
+		}
+	}
+	return true
 }
